@@ -104,7 +104,7 @@ func (sc *ServerConn) decompressFn() func([]byte) ([]byte, error) {
 
 // Send writes one response frame (atomically with respect to other Sends).
 func (sc *ServerConn) Send(r *cqlspec.Response) error {
-	if sc.Compress != "" && sc.Node.CompressResponses && r.Kind != "SUPPORTED" && r.Kind != "READY" {
+	if sc.Compress != "" && sc.Node.CompressResponses && r.Kind != "SUPPORTED" && (r.Kind != "READY" || sc.Node.CompressReady) {
 		r.Compress = true
 	}
 	b, err := r.Frame(sc.compressFn())
@@ -143,6 +143,7 @@ type Node struct {
 	AuthClass         string // class sent in AUTHENTICATE; "" = no authentication unless RequireAuth
 	RequireAuth       bool   // demand authentication even with an empty class name
 	CompressResponses bool
+	CompressReady     bool   // with CompressResponses: the READY that answers STARTUP is compressed too (Cassandra installs the compressor before it answers)
 	RefuseDial        string // "" accept; "refuse" fail; "stall" block until ctx is done
 	Partitioner       string
 }
